@@ -85,7 +85,7 @@ CLAIMED["C07"] = (T_WP + " with wrapper contracts over abstract function symbols
   "Known findings: ScaleRectD truncates (F8), NewClipperD(0) means precision 2 (F17). Not under contract: BooleanOpPathsD / InflatePathsD / PolyTreeD composition.",
   "decimal library by assumed contract (exact New/Mul/Float64, Int64(0) = a nearest integer); math.Pow uninterpreted; RectClip64.Execute as a trusted abstract function of (rect, path-extractor, paths).",
   "DESIGN.md section 4, C07")
-CLAIMED["C08"] = (T_WP + " for the quad construction; the union step is C01",
+CLAIMED["C08"] = (T_WP + " for the quad construction; the union step is C01; sampled bounded stand-in for the swept-region clause (exact parallelogram membership)",
   "Proved for all patterns/paths with coordinates up to 2^27: minkowskiInternal returns exactly (len(path) - (closed?0:1)) * len(pattern) quads, each of them the parallelogram {tmp[g][h], tmp[i][h], tmp[i][j], tmp[g][j]} "
   "(or its reverse) for a path index i with predecessor g (cyclic iff closed) and a pattern index j with cyclic predecessor h, where tmp[i][j] = path[i] +/- pattern[j]; no index out of range, no negative capacity (F3 repaired), no overflow; "
   "ReversePath reverses; MinkowskiSum64/Diff64 == UnionPaths64(minkowskiInternal(..., true/false, isClosed), NonZero). The union itself and commutativity are not decided.",
